@@ -141,3 +141,48 @@ def explore(make_execution, max_preemptions, budget=None, rng=None):
         if rng is not None:
             rng.shuffle(children)
         stack.extend(reversed(children))
+
+
+def run_with_preemption(fn_a, fn_b, k, files, funcs=None):
+    """Cheap single-preemption schedule: thread A runs until it is about to execute its k-th traced
+    source line (k = None: never), then B runs to completion, then A resumes.
+    Returns (result_a, result_b, lines_a) where results are ('ok', value) / ('exc', repr)."""
+    files = set(files)
+    state = {'n': 0}
+    reached = threading.Event()
+    resume = threading.Event()
+    res = {}
+
+    def local(frame, event, arg):
+        if event == 'line':
+            state['n'] += 1
+            if k is not None and state['n'] == k:
+                reached.set()
+                resume.wait(60)
+        return local
+
+    def glob(frame, event, arg):
+        if event == 'call' and frame.f_code.co_filename in files and (funcs is None or frame.f_code.co_name in funcs):
+            return local
+        return None
+
+    def body_a():
+        sys.settrace(glob)
+        try:
+            res['a'] = ('ok', fn_a())
+        except BaseException as e:  # noqa
+            res['a'] = ('exc', repr(e))
+        finally:
+            sys.settrace(None)
+            reached.set()
+
+    ta = threading.Thread(target=body_a, daemon=True)
+    ta.start()
+    reached.wait(60)
+    try:
+        res['b'] = ('ok', fn_b())
+    except BaseException as e:  # noqa
+        res['b'] = ('exc', repr(e))
+    resume.set()
+    ta.join(60)
+    return res.get('a', ('exc', 'thread A did not finish')), res['b'], state['n']
